@@ -83,6 +83,8 @@ func c12Alphabet() []c12Shape {
 		{Name: "open-lingering-ss", Env: kit.EnvSpec{Method: sp(kit.FullMethod("ls"))}, ValidOpen: true, Lingering: true},
 		{Name: "body-lingering-ss", Env: kit.EnvSpec{Method: sp(kit.FullMethod("ls")), Body: body, Wrap: true}, StreamBody: true, Lingering: true},
 		{Name: "trailer-lingering-ss", Env: kit.EnvSpec{Method: sp(kit.FullMethod("ls")), Status: okst, Trailer: true}, Lingering: true},
+		// a body of zero bytes (the encoding of an all-default message) is still a body
+		{Name: "body-empty", Env: kit.EnvSpec{Method: sm, Body: &kit.Payload{Class: "lit", Lit: []byte{}}}, StreamBody: true},
 	}
 }
 
